@@ -96,6 +96,7 @@ type State struct {
 	alloc0   *Term
 	iters    map[int]*IterState
 	panicking *Term // Iface value being propagated, nil if none
+	ownPanic  bool  // the value was raised by a panic statement of the function under verification itself (not by a callee or by user code)
 	trace    *Term
 	trace0   *Term
 	path     []string
@@ -131,7 +132,7 @@ func (st *State) Clone() *State {
 	n := &State{
 		cells: make(map[*Cell]Val, len(st.cells)), heap: make(map[string]*Term, len(st.heap)), heap0: st.heap0,
 		ghost: make(map[string]*Term, len(st.ghost)), allocCtr: st.allocCtr, alloc0: st.alloc0,
-		iters: make(map[int]*IterState, len(st.iters)), panicking: st.panicking, trace: st.trace, trace0: st.trace0,
+		iters: make(map[int]*IterState, len(st.iters)), panicking: st.panicking, ownPanic: st.ownPanic, trace: st.trace, trace0: st.trace0,
 		owned: make(map[int]*OwnedState, len(st.owned)), nbranch: st.nbranch, inDefer: st.inDefer,
 		closures: map[string]*Closure{}, nonnil: map[string]bool{}, once: map[string]bool{},
 	}
